@@ -31,6 +31,7 @@ import numpy as np
 
 # Midgard imports
 from midgard.data import dataset
+from midgard.data.time import Time, TimeDelta
 from midgard.dev import log, plugins
 from midgard.math.constant import constant
 from midgard.math.unit import Unit
@@ -415,19 +416,24 @@ class Sp3dParser(ChainParser):
 
         # TODO workaround: "isot" does not work for initialization of time field (only 5 decimals for seconds are
         #                  allowed). Therefore self.data["time"] is converted to datetime object.
-        from datetime import datetime, timedelta
+        from datetime import datetime
 
         date = []
-        millisec = []
+        frac_sec = []
         for v in self.data["time"]:
             val, val2 = v.split(".")
             date.append(datetime.strptime(val, "%Y-%m-%dT%H:%M:%S"))
-            millisec.append(timedelta(milliseconds=int(val2)))
+            frac_sec.append(float("0." + val2))
 
-        if dset.meta["time_sys"] == "GPS":
-            dset.add_time("time", val=date, val2=millisec, scale="gps", fmt="datetime")
-        elif dset.meta["time_sys"] == "UTC":
-            dset.add_time("time", val=date, val2=millisec, scale="utc", fmt="datetime")
+        # datetime/timedelta only resolve microseconds, therefore the fraction of the second (7 decimals) is added
+        # as TimeDelta
+        if dset.meta["time_sys"] in ("GPS", "UTC"):
+            scale = dset.meta["time_sys"].lower()
+            dset.add_time(
+                "time",
+                val=Time(val=date, scale=scale, fmt="datetime")
+                + TimeDelta(np.array(frac_sec), scale=scale, fmt="seconds"),
+            )
         else:
             log.fatal(f"Time system {dset.meta['time_sys']} is not handled so far in Where.")
 
